@@ -32,8 +32,8 @@ CHECKS["C12"] = dict(engine="libsim", level="exploration", design_ref="DESIGN.md
 
 CHECKS["C13"] = dict(engine="libsim", level="exploration", design_ref="DESIGN.md §3 C13",
    technique="deterministic simulation: N client tasks on one registry under a seeded, race-transparent scheduler (synctest quiescence, fake-clock hand-off without happens-before edges) in a -race build; sequential reference; replay and tape shrinking across processes",
-   text="2-6 simulated clients issue Minify/Bytes/String/Reader/Writer/Match/ResponseWriter/direct-package calls on ONE registry with shared option structs (values drawn per run), on documents biased to HTML hosts that re-enter the registry; the scheduler decides every interleaving of the yield points and hands over control without creating happens-before edges between tasks, so the Go race detector reports every conflicting unsynchronised pair executed by different tasks even though execution is serial, and the report replays from the tape. Also judged: bytes/error equal the sequential call, no lock wait (would-block from the lock facade), shared option structs deep-equal before/after, no deadlock. Seeded sampling of schedules, not enumeration.",
-   note="Trusts: Go race detector (shadow-memory limits apply), testing/synctest, go build -overlay replacing only the sync import of minify.go. Registration concurrent with use is excluded by the property. AddCmd minifiers are not scheduled (real processes).")
+   text="2-6 simulated clients issue Minify/Bytes/String/Reader/Writer/Match/ResponseWriter/direct-package calls on ONE registry with shared option structs (values drawn per run), on documents biased to HTML hosts that re-enter the registry; the scheduler decides every interleaving of the yield points and hands over control without creating happens-before edges between tasks, so the Go race detector reports every conflicting unsynchronised pair executed by different tasks even though execution is serial, and the report replays from the tape. Also judged: bytes/error equal the sequential call (results are compared after ALL calls have returned, so aliased result buffers show); no call still waiting for a lock at a quiescent point (the holder is parked inside I/O); shared option structs deep-equal before/after; a reflection digest of all ~3000 package-level variables of the seven packages (incl. spare slice capacity) every 256 cases; equal library output in four fresh processes at GOMAXPROCS 1/4/16/2; a site URL on the registry; occasionally more than 100 calls in flight; two sub-scenarios in a process of their own: Bytes on adjacent sub-slices of one array, AddCmd minifiers called repeatedly from several tasks. Seeded sampling of schedules, not enumeration.",
+   note="Trusts: Go race detector (shadow-memory limits apply), testing/synctest, go build -overlay replacing only the sync import of minify.go and adding accessors for package-level variables. Yield points are reader/writer calls and task steps, not every instruction: wrong bytes that need two goroutines inside straight-line minifier code at once are seen as races only. Registration concurrent with use is excluded by the property. Workers restart every 15 s (race runtime leaks a context per synctest bubble).")
 CHECKS["C15"] = dict(engine="libsim", level="exploration", design_ref="DESIGN.md §3 C15",
    technique="seeded operation histories (registrations interleaved with queries) against a small executable reference model; tape replay and shrinking; no schedule/fault dimension exists in this property",
    text="Random registration histories over overlapping literal types and patterns (incl. re-registration and external-command minifiers) interleaved with Match/Minify/MinifyMimetype/Bytes/String/Reader queries over media type strings with case, spaces and parameters; every query is compared with a reference model of the documented rules (which stub ran, with which params, ErrNotExist and zero bytes otherwise, Match == what a call uses). Weak by nature: the property has no schedule or fault for a simulator to own; this is the model-based half of the technique only and is claimed as such.",
@@ -46,13 +46,13 @@ CHECKS["C20"] = dict(engine="clisim", level="fault_enumeration", design_ref="DES
 
 CHECKS["C19"] = dict(engine="clisim", level="exploration", design_ref="DESIGN.md §3 C19",
    technique="deterministic simulation of the real cmd/minify under os/io facades (overlay): seeded worker schedules, plan-chosen io buffer sizes, errno injection; file system, stdout and exit status compared with an executable model built from library calls",
-   text="Generated directory trees and invocation shapes from the README's grammar are run through the real command (worker pool under a seeded scheduler, two schedules per multi-task scenario, io.ReadAll/io.Copy buffer sizes chosen by the plan); afterwards every destination must hold exactly the library's bytes for its type (original bytes when the library rejects the input, verbatim copy in sync mode, minified concatenation with the documented separator for bundles), stdout likewise, exit status non-zero iff a selected file failed, no other path changed, no leftover .bak, refused invocations write nothing. One run in three additionally injects an errno into an operation the command handles; then only 'no other file modified' and 'inputs not harmed' are judged. Sampling of trees, shapes and schedules.",
+   text="Generated directory trees and invocation shapes from the README's grammar are run through the real command (worker pool under a seeded scheduler, two schedules per multi-task scenario, io.ReadAll/io.Copy buffer sizes chosen by the plan); afterwards every destination must hold exactly the library's bytes for its type (original bytes when the library rejects the input, verbatim copy in sync mode, minified concatenation with the documented separator for bundles), stdout likewise, exit status non-zero iff a selected file failed, no other path changed, no leftover .bak, refused invocations write nothing. One run in three additionally injects an errno (ENOSPC, EIO, EACCES, EMFILE, EINTR; once, a few times - exercising the retry loops - or permanently) into an operation the command handles (open, truncating open, rename, mkdirall, write, read, close, remove); then only 'no other file modified' and 'inputs not harmed' are judged. Shapes include template file types, failing contents rewritten in place before the error, in-place directories spelled differently, directories with more files than workers plus channel capacity, odd file names. Sampling of trees, shapes and schedules.",
    note="Trusts: the model of destinations (written from cmd/minify/README.md; shapes it does not pin are not judged), library calls of the same tree for contents, the os/io facades covering every FS access (AST scan, exit 2 otherwise), kernel FS semantics of the scratch tmpfs.")
 
 CHECKS["C10"] = dict(engine="libsim", level="exploration", design_ref="DESIGN.md §3 C10",
    technique="deterministic simulation with fault injection on the stream and collaborator seams: seeded stream faults (truncate, drop/duplicate/swap chunk, flip byte, reader/writer failure) applied to corpus documents through every entry point, wrappers under the seeded scheduler; crash/hang monitors; tape replay and shrinking",
-   text="PARTIAL CLAIM: only the part of C10 that stream faults and failing collaborators reach. Documents from the tree's tests, corpora and benchmarks are delivered cut short, with chunks lost, duplicated (up to 64 times) or swapped, bytes flipped, with a reader or writer that starts failing, optionally embedded in an HTML host, through Minify/Bytes/String/Reader/Writer and direct package calls with default and extreme options (all Keep* flags, precisions incl. MaxInt/MinInt). Judged: no panic, the call returns (deadlock detection, step budget, wall-clock watchdog confirmed by solitary replay), output volume bounded, Bytes/String return the caller's data unchanged on error. Not claimed: arbitrary byte strings (fuzzing), memory growth, wall-time proportionality.",
-   note="Trusts: Go runtime, testing/synctest, the doubles. The hang watchdog is wall-clock (60 s for cases that take milliseconds) and only reported after a solitary replay hangs again; otherwise exit 2. One known finding (Bytes returns modified data on error) is listed in known_findings.json.")
+   text="PARTIAL CLAIM: only the part of C10 that stream faults and failing collaborators reach. Documents from the tree's tests, corpora and benchmarks are delivered cut short, with chunks lost, duplicated (up to 64 times) or swapped, bytes flipped, with a reader or writer that starts failing, optionally embedded in an HTML host, through Minify/Bytes/String/Reader/Writer and direct package calls with default and extreme options (all Keep* flags, precisions incl. MaxInt/MinInt). Judged: no panic, the call returns (deadlock detection, step budget, wall-clock watchdog confirmed by solitary replay), output volume bounded, Bytes/String return the caller's data unchanged on error. Not claimed: arbitrary byte strings (fuzzing), memory growth, wall-time proportionality (a known quadratic-time input of the pinned HTML minifier and seeded change c10-w3a are NOT detected, see DESIGN.md §8.4).",
+   note="Trusts: Go runtime, testing/synctest, the doubles. The hang watchdog is wall-clock (60 s for cases that take milliseconds) and only reported after a solitary replay hangs again; otherwise exit 2.")
 CHECKS["C11"] = dict(engine="libsim", level="exploration", design_ref="DESIGN.md §3 C11",
    technique="deterministic simulation of the host/embedded-minifier interaction through the registry seam: recording, identity, absent and failing stub sub-minifiers registered through the public API (fault injection at the collaborator), recorded call history checked against the host construction; tape replay and shrinking",
    text="PARTIAL CLAIM: the interaction between a host minifier and the registry (who is called, with what, what happens when the callee is absent or fails), not the product space of host documents. Template-built HTML/SVG/CSS hosts with known payload spans (script/style/iframe/svg/math, style= and on*=, data: URIs, SVG style text/CDATA/attribute, HTML>SVG>CSS nesting); each embedded media type is independently real, absent, recording, identity or failing-on-nth-call. The recorded dispatch history must equal the prediction (type from the type attribute or documented default, exact payload, inline=1 for attributes, document order, nothing else); stub output substituted in order; real minifiers commute with standalone calls; absent => pass-through; failing => outer call returns that error; real syntax error => located inside the construct.",
